@@ -46,8 +46,9 @@ theorem code_m2_invert_two_sided (a : M2 K) (h : a.det ≠ 0) :
     | some n => exact ⟨n, rfl⟩
   exact ⟨n, by rw [Trace.C02.t_m2_invert_some a h, hn]; rfl, C02.M2.invert_spec a n hn⟩
 
-/-- on the other path the code returns `None`, and the comparison it made is `det == 0` (came out true): so `None`
-exactly when the determinant is zero -/
+/-- on the other path the code returns `None`, and the comparison it RECORDED is `det == 0` (came out true).  The statement holds for every
+matrix (the kernel is the path, not the function); the reading "`None` exactly when the determinant is zero" is made formal in
+`E2E/C02g.lean` through `Tr.Consistent` (guard semantics, `Lemmas/GuardSem.lean`). -/
 theorem code_invert_none_path (a2 : M2 K) (a3 : M3 K) (a4 : M4 K) :
     t_m2_invert_none (envL a2.toList) = .noneG [.eq a2.det 0 true] ∧ t_m3_invert_none (envL a3.toList) = .noneG [.eq a3.det 0 true] ∧
     t_m4_invert_none (envL a4.toList) = .noneG [.eq a4.det 0 true] :=
@@ -65,7 +66,7 @@ theorem code_m4_inverse_transform_two_sided (a : M4 K) (h : a.det ≠ 0) :
   have he : a.inverseTransform = a.invert := rfl
   exact ⟨n, by rw [Trace.C02.t_m4_inverse_transform_some a h, he, hn]; rfl, this.1, this.2, hn⟩
 
-/-- `transpose()` as computed is an involution and reverses products -/
+/-- transposing (in the model) the transpose the code computed gives the matrix back, and the computed transpose reverses products -/
 theorem code_m4_transpose (a b : M4 K) :
     ∃ t : M4 K, t_m4_transpose (envL a.toList) = .okS t.toList ∧ t.transpose = a ∧ (a * b).transpose = b.transpose * t :=
   ⟨a.transpose, Trace.C02.t_m4_transpose a, rfl, C02.M4.transpose_mul a b⟩
